@@ -1,3 +1,4 @@
+import Treepath.Proofs.Drive
 import Treepath.Proofs.EvalLemmas
 import Treepath.Proofs.NodeLemmas
 /- C03 — a filter keeps exactly the candidates its predicate accepts -/
@@ -35,6 +36,34 @@ theorem filter_calls_once (f : Pred J) (t : List (Step J)) (vi : Nat) (n : MNode
     ∃ tail, stream (.filter f :: t) vi n = .predCall n :: (f n).evs ++ tail := by
   simp only [stream, Step.cls]
   exact ⟨_, rfl⟩
+
+/-- **the traverser applies filters as the definition says.**  For every document and every
+path over the full step grammar whose predicates are arbitrary functions of the candidate
+that do not raise (returning any object: only truthiness is used) and whose own events are
+clean (true of every has-family predicate), the machine driven to `StopIteration` yields
+exactly `eval steps root`. -/
+theorem machine_filters (steps : Array (Step J)) (src : Src J) (hq : Quiet steps.toList) (hp : PredsClean steps)
+    (limit : Nat) (st' st'' : St J) (rs : List (MNode J)) (E evs : List (Ev J))
+    (hy : Yields J.view steps src limit freshIter rs E st')
+    (hstop : next J.view steps src limit st' = (st'', evs, .stop)) :
+    rs = eval steps.toList src.rootNode :=
+  exhausted_all steps src hq hp limit st' st'' rs E evs hy hstop
+
+/-- **call log.**  The complete action run of the machine emits exactly the specification's
+stream — in which each filter position contributes `predCall c` once per candidate, in
+candidate order (`filter_calls_once`) — and then the machine is exhausted. -/
+theorem machine_call_log (steps : Array (Step J)) (src : Src J) (hq : Quiet steps.toList) :
+    ∃ k stD, hrun J.view steps src (1 + k) freshIter = (stD, stream steps.toList 0 src.rootNode) ∧ stD.act = .done :=
+  full_run steps src hq
+
+/-- a raising predicate: `next()` raises `TraversingError` caused by the predicate's
+exception and the traverser is left exactly as it was before the action (so the exception
+is neither swallowed nor turned into a non-match; calling `next()` again raises again) -/
+theorem raise_surfaces {α} (view : α → View α) (st : St α) (c : Nat) (tm : TM α) (vi : Nat) (f : Pred α) (e : Exc)
+    (h : (f tm.node).res = .raise e) :
+    vmatch view st c tm vi (.filter f) =
+      .abort st (.raised (.traversing e)) (.predCall tm.node :: (f tm.node).evs ++ [.raised (.traversing e)]) := by
+  simp [vmatch, vmatchFilter, h]
 
 example :
     (eval [.keyWc, .filter (fun n => ⟨[], .val (match n.data with | .int 0 => .str "" | _ => .arr [.int 0])⟩)]
